@@ -225,7 +225,11 @@ class MailboxData(MailboxDataInterface[Message]):
                               wait_on: Event | None = None) -> SelectedMailbox:
         if wait_on is not None:
             either_event = wait_on.or_event(self._updated)
-            await either_event.wait()
+            # only wait if there is nothing to report yet, a change made
+            # before the event was created would never wake it up
+            if not wait_on.is_set() \
+                    and selected.mod_sequence == self._mod_sequences.highest:
+                await either_event.wait()
         mod_sequence = selected.mod_sequence
         selected.mod_sequence = self._mod_sequences.highest
         if mod_sequence is None:
